@@ -53,7 +53,7 @@ def run(ck):
     vlib.write_ndjson(scrf, scripts)
     binary = res["build"]
 
-    seeds = [ck.seed] if not thorough else [ck.seed, ck.seed + 1]
+    seeds = [ck.seed]
     problems = []
     for s in seeds:
         st, pt = os.path.join(d, "serve-%d.ndjson" % s), os.path.join(d, "poller-%d.ndjson" % s)
@@ -67,7 +67,8 @@ def run(ck):
 
         def val(mod, trace, name):
             try:
-                return vlib.validate_trace(ck, SPECDIR, mod, mod + ".cfg", trace, name, timeout=2400)
+                return vlib.validate_trace(ck, SPECDIR, mod, mod + ".cfg", trace, name, timeout=2400,
+                                           count_traces=lambda ev: sum(1 for e in ev if e["ev"] in ("Store", "Reset")))
             except Inconclusive as e:
                 return e
         va = pool.submit(val, "CertExchangeTrace", st, "serve-seed%d" % s)
@@ -75,7 +76,8 @@ def run(ck):
         for v in (va.result(), vb.result()):
             if isinstance(v, Inconclusive):
                 problems.append(v)
-        vacuity(ck, vlib.read_ndjson(st), vlib.read_ndjson(pt), s)
+        if not ck.violations:
+            vacuity(ck, vlib.read_ndjson(st), vlib.read_ndjson(pt), s)
     if problems and not ck.violations:
         raise problems[0]
     ck.cov["distinct_nontrivial"] = len(reqs) * 2 + len(scripts)
@@ -93,6 +95,8 @@ def vacuity(ck, serve, poll, s):
         if e["ev"] == "Serve":
             kinds["serve"] += 1
             kinds["serve-" + e["via"]] += 1
+            if e["via"].endswith("-race") and e["certs"]:
+                kinds["serve-race"] += 1
             if not e["ok"]:
                 kinds["serve-error"] += 1
             if e["certs"]:
@@ -115,7 +119,7 @@ def vacuity(ck, serve, poll, s):
             if e["stored"]:
                 kinds["poll-stored"] += 1
     ck.cov.setdefault("event_counts", {})["seed%d" % s] = dict(kinds)
-    need = ["serve-client", "serve-raw", "serve-error", "serve-certs", "serve-table", "serve-cap", "cs-cut", "Store",
+    need = ["serve-client", "serve-raw", "serve-race", "serve-error", "serve-certs", "serve-table", "serve-cap", "cs-cut", "Store",
             "poll-concrete-Illegal", "poll-concrete-Hit", "poll-concrete-Miss", "poll-concrete-Failed", "poll-honest-Hit",
             "poll-honest-Miss", "poll-multireq", "poll-stored"]
     for n in need:
